@@ -231,10 +231,16 @@ func VerifC20NoCrash() {
 		}
 	}
 	st := smetrics.NewKvStorage(cs, m)
-	be := backend.NewBackend(st, backend.Config{Prefix: "/r", EnableEtcdCompatibility: true, WatchCacheSize: 4}, m)
+	be := backend.NewBackend(st, backend.Config{Prefix: "/r", EnableEtcdCompatibility: true, WatchCacheSize: zzverif.Param("cache", 4)}, m)
 	be.SetCurrentRevision(5)
 	peers := &zzsrv.Peers{Leader: true}
 	w := &world{be: be, bs: brain.New(be, m, peers), es: etcd.New(be, m, peers)}
+	// the node has been serving for a while: earlier writes have filled (and wrapped) the event cache
+	for i := 0; i < zzverif.Param("warmup", 0); i++ {
+		cr, err := w.bs.Create(context.Background(), &proto.CreateRequest{Key: []byte{'/', 'r', '/', 'w', byte('0' + i)}, Value: []byte("v")})
+		zzverif.Assert(err == nil && cr.Succeeded, "warm-up create")
+		zzverif.WaitIdle()
+	}
 	n := zzverif.Param("requests", 1)
 	for i := 0; i < n; i++ {
 		if zzverif.Param("roles", 0) == 1 {
